@@ -37,9 +37,10 @@ class WEnv(sw.EnvModel):
             if I.path.cond(kind.t == U['MAPPING'].t):
                 ev(I, 'applied', I.getfield(update, 'owner'))
                 return None
-            if I.path.cond(kind.t == U['CORRUPTING'].t):
-                # a mapping that replaces the task's own entry by something that is not a mapping: apply succeeds,
-                # every later write into that entry (clocks, status) raises
+            if I.path.cond(z3.Or(kind.t == U['CORRUPTING'].t, kind.t == U['READONLY'].t)):
+                # a mapping that replaces the task's own entry by something that is not a MutableMapping (Env.apply merges
+                # MutableMapping values only and stores everything else as it is): apply succeeds, every later write into
+                # that entry (clocks, status) raises
                 ev(I, 'applied', I.getfield(update, 'owner'))
                 I.corrupt = True
                 return None
@@ -87,7 +88,8 @@ class WEnv(sw.EnvModel):
 
 class UpdateModel(ClassModel):
     '''what a task returns as its update: a mapping of task names to dictionaries (MAPPING), a mapping with a value that
-    is not a dictionary (CORRUPTING), or something that is not a mapping at all (BAD: no .items() / .values())'''
+    is not a mapping (CORRUPTING), a mapping whose value for the task is a read-only mapping (READONLY: a Mapping that is not
+    a MutableMapping, e.g. types.MappingProxyType), or something that is not a mapping at all (BAD: no .items() / .values())'''
     name = 'Update'
     fields = {}
 
@@ -102,9 +104,11 @@ class UpdateModel(ClassModel):
         kind, U = self._kind(I, u)
         if I.path.cond(kind.t == U['BAD'].t):
             I.raise_('AttributeError')
-        good = I.alloc('UpdVal', {'is_mapping': True})
+        good = I.alloc('UpdVal', {'is_mapping': True, 'is_mutable': True})
         if I.path.cond(kind.t == U['CORRUPTING'].t):
-            return [good, I.alloc('UpdVal', {'is_mapping': False})]
+            return [good, I.alloc('UpdVal', {'is_mapping': False, 'is_mutable': False})]
+        if I.path.cond(kind.t == U['READONLY'].t):
+            return [good, I.alloc('UpdVal', {'is_mapping': True, 'is_mutable': False})]
         return [good]
 
     def m_get(self, I, u, key, default=None):
@@ -114,8 +118,10 @@ class UpdateModel(ClassModel):
         if I.path.cond(kind.t == U['BAD'].t):
             I.raise_('AttributeError')
         if I.path.cond(kind.t == U['CORRUPTING'].t):
-            return I.alloc('UpdVal', {'is_mapping': False})
-        return I.alloc('UpdVal', {'is_mapping': True})
+            return I.alloc('UpdVal', {'is_mapping': False, 'is_mutable': False})
+        if I.path.cond(kind.t == U['READONLY'].t):
+            return I.alloc('UpdVal', {'is_mapping': True, 'is_mutable': False})
+        return I.alloc('UpdVal', {'is_mapping': True, 'is_mutable': True})
 
     def m_items(self, I, u):
         kind, U = self._kind(I, u)
@@ -184,9 +190,9 @@ def make_worker_world():
     w.class_models['Queue'] = WQueue(w)
     w.class_models['Condition'] = Cond(w)
     w.class_models['WorkerThread'] = Worker(w)
-    sort, consts = th.enum_sort('UpdateKind', ['NONE', 'MAPPING', 'BAD', 'CORRUPTING'])
+    sort, consts = th.enum_sort('UpdateKind', ['NONE', 'MAPPING', 'BAD', 'CORRUPTING', 'READONLY'])
     w.globals['UpdateKind'] = SNamespace('UpdateKind', {m: SV(T('Enum', 'UpdateKind'), c) for m, c in consts.items()})
-    sort, consts = th.enum_sort('Outcome', ['RAISES', 'NONE', 'PAIR', 'NOT_A_PAIR'])
+    sort, consts = th.enum_sort('Outcome', ['RAISES', 'EXITS', 'NONE', 'PAIR', 'NOT_A_PAIR'])
     w.globals['Outcome'] = SNamespace('Outcome', {m: SV(T('Enum', 'Outcome'), c) for m, c in consts.items()})
 
     def now(I):
@@ -196,8 +202,9 @@ def make_worker_world():
     w.globals['time'] = SNamespace('time', {'time': now})
 
     def task_do(I, task, env, config):
-        '''contract of Task.do (user code): ensures true, signals Exception.  The ghost `outcome` records what it
-        did: raise / None / a pair (update, status) / something that is not a pair.  A-task-readonly: it does not
+        '''contract of Task.do (user code): ensures true, signals BaseException.  The ghost `outcome` records what it
+        did: raise an Exception / raise something that is not an Exception (EXITS: SystemExit from sys.exit() in user code) /
+        None / a pair (update, status) / something that is not a pair.  A-task-readonly: it does not
         write the environment it is handed.'''
         O = w.globals['Outcome'].members
         out = I.fresh(T('Enum', 'Outcome'), 'outcome')
@@ -205,6 +212,8 @@ def make_worker_world():
         ev(I, 'do', task)
         if I.path.cond(out.t == O['RAISES'].t):
             I.raise_('Exception')
+        if I.path.cond(out.t == O['EXITS'].t):
+            I.raise_('SystemExit')
         if I.path.cond(out.t == O['NONE'].t):
             return None
         if I.path.cond(out.t == O['PAIR'].t):
@@ -224,7 +233,8 @@ def make_worker_world():
     def isinstance_hook(I, x, cls):
         names = [c.name for c in (cls if isinstance(cls, tuple) else (cls,)) if isinstance(c, SClass)]
         if isinstance(x, SObj) and x.cls == 'UpdVal' and set(names) & {'Mapping', 'MutableMapping', 'dict'}:
-            return I.getfield(x, 'is_mapping')
+            # Mapping is the wider class: a read-only mapping is a Mapping but neither a MutableMapping nor a dict
+            return I.getfield(x, 'is_mapping' if 'Mapping' in names else 'is_mutable')
         if isinstance(x, SObj) and x.cls == 'Update' and set(names) & {'Mapping', 'MutableMapping', 'dict'}:
             kind = I.getfield(x, 'kind')
             return SV(BOOL, kind.t != w.globals['UpdateKind'].members['BAD'].t)
@@ -328,7 +338,7 @@ def worker_check(I, scope, outcome):
         upd, raw = I.returned
         kind = I.update_kind
         ok_status = z3.And(z3.Not(opt_is_none(raw)), z3.Or(opt_get(raw).t == D.t, opt_get(raw).t == F.t))
-        wellformed = z3.And(out.t == O['PAIR'].t, ok_status, kind.t != U['BAD'].t, kind.t != U['CORRUPTING'].t)
+        wellformed = z3.And(out.t == O['PAIR'].t, ok_status, kind.t != U['BAD'].t, kind.t != U['CORRUPTING'].t, kind.t != U['READONLY'].t)
         p.oblige(f'{L}::post::C02-wellformed-result-keeps-its-status', z3.Implies(wellformed, st.t == opt_get(raw).t), kind='post',
                  meta={'expr': 'a well-formed (update, DONE|FAILED) result is published with the returned status'})
     p.oblige(f'{L}::post::C02-raise-or-malformed-result-is-FAILED', z3.Implies(z3.Not(wellformed), st.t == F.t), kind='post',
